@@ -246,6 +246,9 @@ def mk_tuple(items):
         # (a, *(b, c)) is (a, b, c)
         if is_t(x, "star") and (is_t(x[1], "tuple") or is_t(x[1], "list")):
             out.extend(x[1][1])
+        elif is_t(x, "star") and is_t(x[1], "slice") and (x[1][2] is None or (isinstance(x[1][2], int) and x[1][2] >= 0)) and isinstance(x[1][3], int) and 0 <= x[1][3] <= 16:
+            # (*t[:3], y) is (t[0], t[1], t[2], y)
+            out.extend(mk_proj(x[1][1], i) for i in range(x[1][2] or 0, x[1][3]))
         else:
             out.append(x)
     return ("tuple", tuple(out))
@@ -424,6 +427,9 @@ def mk_phi(test, a, b):
         return mk_phi(("cmp", "is", test[2], test[3]), b, a)
     if is_t(a, "tuple") and is_t(b, "tuple") and len(a[1]) == len(b[1]) and not _has_star(a) and not _has_star(b):
         return mk_tuple(mk_phi(test, x, y) for x, y in zip(a[1], b[1]))
+    # (d[k] if k in d else default) is d.get(k, default)
+    if is_t(test, "cmp") and test[1] == "in" and a == ("index", test[3], test[2]):
+        return ("call", ("attr", test[3], "get"), (test[2], b), ())
     if is_t(a, "fam") and is_t(b, "fam") and a[1] == b[1]:
         # ([f(x) for x in A] if c else [g(x) for x in A]) is [(f(x) if c else g(x)) for x in A]
         return ("fam", a[1], a[2] if a[2] == b[2] else mk_phi(test, a[2], b[2]))
